@@ -70,20 +70,28 @@ def rdCOp : Rd (Option COp) := do
   | "dump" | "cdump" => return some .dump
   | _ => return some .bad
 
+def sizeOk (w h : Int) : Bool := 0 ≤ w && 0 ≤ h && w ≤ 65536 && h ≤ 65536 && w * h ≤ 1048576
+
 /-- `C w h ; op ; …` → initial size and ops -/
 def parse (rest : String) : Int × Int × List COp :=
   match rest.splitOn ";" with
   | [] => (0, 0, [])
   | h :: ops =>
     let ((w, hh), _) := (do let w ← Rd.int; let h ← Rd.int; return (w, h) : Rd (Int × Int)).run (words h)
-    (w, hh, ops.filterMap fun o => (rdCOp.run (words o)).1)
+    (w, hh, ops.flatMap fun o =>
+      -- `hz x y w h <element>`: a column handle taken before a resize and assigned through after it = resize, then the cell
+      match words o with
+      | "hz" :: rest =>
+        let ((x, y, w2, h2, e), _) := (do let x ← Rd.int; let y ← Rd.int; let w ← Rd.int; let h ← Rd.int; let e ← rdElement
+                                          return (x, y, w, h, e) : Rd (Int × Int × Int × Int × Element)).run rest
+        if sizeOk w2 h2 then [.rz w2 h2, .px x y e] else [.rz w2 h2]
+      | ws => ((rdCOp.run ws).1).toList)
 
 def opName : COp → String
   | .px x y _ => s!"px {x} {y}" | .gt x y => s!"gt {x} {y}" | .rz w h => s!"rz {w} {h}"
   | .it ox oy w h => s!"it {ox} {oy} {w} {h}" | .dump => "dump" | .bad => "?"
   | .fl ox oy w h _ => s!"fl {ox} {oy} {w} {h}" | .cp => "cp" | .ba => "ba" | .bdump => "bdump"
 
-def sizeOk (w h : Int) : Bool := 0 ≤ w && 0 ≤ h && w ≤ 65536 && h ≤ 65536 && w * h ≤ 1048576
 def inside (s : Extent) (x y : Int) : Bool := 0 ≤ x && 0 ≤ y && x < s.width && y < s.height
 def regionInside (s : Extent) (ox oy w h : Int) : Bool :=
   0 ≤ ox && 0 ≤ oy && 0 ≤ w && 0 ≤ h && ox + w ≤ s.width && oy + h ≤ s.height
